@@ -4,6 +4,8 @@ Verdicts per obligation:  proved (unsat) | refuted (sat, with model text) | unkn
 Cover obligations (vacuity guards) are the other way round: they must be *satisfiable*.
 Queries run in a process pool; each is shipped as SMT-LIB2 text.
 """
+import hashlib
+import json
 import os
 import subprocess
 import tempfile
@@ -69,28 +71,33 @@ def _run_cvc5(text, timeout_ms):
 
 
 def _job(args):
+    """Portfolio: z3 with a short budget first (almost every obligation is discharged in milliseconds), then cvc5
+    on the same SMT-LIB text, then z3 again with the full budget and other random seeds."""
     name, text, cover, timeout_ms, use_cvc5, prefer = args
+    total = 0.0
     if prefer == "cvc5":
         r, info, dt = _run_cvc5(text, timeout_ms)
+        total += dt
         if r in ("sat", "unsat"):
-            return (name, r, info, dt, "cvc5")
-    r, info, dt = _run_z3(text, timeout_ms)
-    backend = "z3"
-    if r in ("unknown", "error") and use_cvc5:
+            return (name, r, info, total, "cvc5")
+    quick = min(timeout_ms, 4000)
+    r, info, dt = _run_z3(text, quick)
+    total += dt
+    if r in ("sat", "unsat"):
+        return (name, r, info, total, "z3")
+    if cover:
+        return (name, r, info, total, "z3")
+    if use_cvc5 and prefer != "cvc5":
         r2, info2, dt2 = _run_cvc5(text, timeout_ms)
+        total += dt2
         if r2 in ("sat", "unsat"):
-            r, info, backend = r2, info2, "cvc5"
-        dt += dt2
-    if r in ("unknown", "error") and not cover:
-        # quantifier instantiation in z3 is sensitive to incidental term order: retry with other seeds
-        # before giving up (a verdict must not flip because of solver luck)
-        for seed in (7, 23):
-            r3, info3, dt3 = _run_z3(text, timeout_ms, seed)
-            dt += dt3
-            if r3 in ("sat", "unsat"):
-                r, info, backend = r3, info3, "z3(seed %d)" % seed
-                break
-    return (name, r, info, dt, backend)
+            return (name, r2, info2, total, "cvc5")
+    for seed in (0, 7, 23):
+        r3, info3, dt3 = _run_z3(text, timeout_ms, seed)
+        total += dt3
+        if r3 in ("sat", "unsat"):
+            return (name, r3, info3, total, "z3" if not seed else "z3(seed %d)" % seed)
+    return (name, r, info, total, "z3+cvc5")
 
 
 class Result:
@@ -102,15 +109,53 @@ class Result:
         self.backend = backend
 
 
-def discharge(obligations, timeout_ms=10000, jobs=None, use_cvc5=True):
+CACHE_DIR = os.path.join(os.path.dirname(os.path.dirname(os.path.abspath(__file__))), "build", "vccache")
+
+
+def _cache_get(key):
+    p = os.path.join(CACHE_DIR, key[:2], key + ".json")
+    try:
+        with open(p) as f:
+            return json.load(f)
+    except Exception:
+        return None
+
+
+def _cache_put(key, val):
+    d = os.path.join(CACHE_DIR, key[:2])
+    try:
+        os.makedirs(d, exist_ok=True)
+        tmp = os.path.join(d, key + ".tmp%d" % os.getpid())
+        with open(tmp, "w") as f:
+            json.dump(val, f)
+        os.replace(tmp, os.path.join(d, key + ".json"))
+    except Exception:
+        pass
+
+
+def discharge(obligations, timeout_ms=10000, jobs=None, use_cvc5=True, stats=None):
+    """Verdicts for *byte-identical* SMT-LIB queries are reused from build/vccache (several properties share
+    obligations; the queries themselves are regenerated from /repo's source on every run)."""
     jobs = jobs or min(16, os.cpu_count() or 4)
     payload = []
+    results = [None] * len(obligations)
+    keys = {}
+    use_cache = not os.environ.get("VERIF_NO_VC_CACHE")
+    hits = 0
     for i, ob in enumerate(obligations):
         cover = ob.kind == "cover"
-        payload.append(("%d" % i, to_smt2(ob.assumptions, ob.goal, cover), cover,
-                        min(timeout_ms, 3000) if cover else timeout_ms, use_cvc5 and not cover,
+        text = to_smt2(ob.assumptions, ob.goal, cover)
+        key = hashlib.sha256((z3.get_version_string() + ("C" if cover else "A") + text).encode()).hexdigest()
+        keys[i] = key
+        hit = _cache_get(key) if use_cache else None
+        if hit is not None:
+            results[i] = Result(ob, hit["status"], hit.get("info", ""), 0.0, hit["backend"] + "(cached)")
+            hits += 1
+            continue
+        payload.append(("%d" % i, text, cover, min(timeout_ms, 3000) if cover else timeout_ms, use_cvc5 and not cover,
                         (ob.info or {}).get("prefer")))
-    results = [None] * len(obligations)
+    if stats is not None:
+        stats["cache_hits"] = stats.get("cache_hits", 0) + hits
     if jobs == 1 or len(payload) <= 2:
         outs = map(_job, payload)
     else:
@@ -126,4 +171,6 @@ def discharge(obligations, timeout_ms=10000, jobs=None, use_cvc5=True):
         else:
             status = {"unsat": "proved", "sat": "refuted"}.get(r, "unknown")
         results[i] = Result(ob, status, info, dt, backend)
+        if use_cache and status in ("proved", "refuted", "covered", "vacuous"):
+            _cache_put(keys[i], {"status": status, "backend": backend, "info": info if status == "refuted" else ""})
     return results
